@@ -56,7 +56,11 @@ func (w *world) walWrite(b []byte) {
 	syscall.RawSyscall(syscall.SYS_WRITE, uintptr(w.walfd), uintptr(unsafe.Pointer(&b[0])), uintptr(len(b)))
 }
 
-func budgetFor(n int) int64 { return 2_000_000 + 4000*int64(n) }
+// budgetFor is the per-op step budget (yields): far above anything measured on
+// the unchanged tree (about 1 yield per input byte for ordinary pages, up to
+// about 40 per byte for pages nested 300 deep), small enough to be reached in
+// seconds by a loop or recursion that does not advance.
+func budgetFor(n int) int64 { return 20_000_000 + 1000*int64(n) }
 
 func (w *world) setup() error {
 	p := w.p
@@ -361,6 +365,10 @@ func TestWorker(t *testing.T) {
 	}
 	k := newKernel(p)
 	w.k = k
+	// runaway recursion should end in the runtime's fatal "stack overflow"
+	// (a process death the driver attributes to the op in flight) before it
+	// eats a gigabyte
+	debug.SetMaxStack(256 << 20)
 
 	run := func() {
 		// hooks first: the harness's own dom.Parse calls during set-up must
